@@ -191,3 +191,25 @@ def probe_slower_than_the_interval_but_within_its_timeout():
         steps += [{"op": "sleep", "ns": SEC // 2}, req("r%d" % (k + 1))]
     steps.append({"op": "sleep", "ns": SEC})
     return {"steps": steps}
+
+
+def redeploy_with_custom_error_pages():
+    """a service with custom error pages (no TLS) redeployed twice with the same pages directory: requests during the drains and
+    afterwards are answered by the new targets"""
+    d = lambda cid, t, asyn=False: dict(dep(cid, [t], asyn=asyn), pages="good")
+    return {"steps": [d("c1", b"ta:80"), req("r1"), req("r90", "delay:%d" % (2 * SEC)), {"op": "sleep", "ns": SEC // 10},
+                      d("c2", b"tb:80", True), {"op": "sleep", "ns": SEC // 2}, req("r2"), req("r3"), {"op": "sleep", "ns": 3 * SEC}, req("r4"),
+                      d("c3", b"tc:80"), req("r5"), {"op": "sleep", "ns": SEC}, req("r6")]}
+
+
+def drain_outlasts_the_target_timeout(stop=False):
+    """target timeout (it bounds the wait for response HEADERS) far below the drain timeout; a response that began in time is
+    still streaming when the redeploy (or pause) drains its target: it completes within the drain timeout"""
+    d1 = dep("c1", [b"ta:80"])
+    d1["topts"] = dict(d1["topts"], response_timeout=SEC // 4)
+    d2 = dep("c2", [b"tb:80"], asyn=True, drain=5 * SEC)
+    d2["topts"] = dict(d2["topts"], response_timeout=SEC // 4)
+    cmd = {"op": "pause", "id": "c2", "async": True, "name": H(b"web"), "fail_after": 10 * SEC, "drain_timeout": 5 * SEC} if stop else d2
+    tail = [{"op": "resume", "id": "c3", "name": H(b"web")}] if stop else []
+    return {"steps": [d1, req("r1", "stream:%d" % (2 * SEC)), req("r2", "delay:%d" % (3 * SEC // 2)), {"op": "sleep", "ns": SEC // 10}, cmd,
+                      {"op": "sleep", "ns": 4 * SEC}] + tail + [req("r3"), {"op": "sleep", "ns": SEC}]}
